@@ -91,6 +91,10 @@ def handleWire (w : WSt) (ws : List String) : Option (WSt × String) :=
     match a.toNat?, b.toNat? with
     | some x, some y => some (w, showViols (H2V.Spec.Verdict.bodyEnd x y))
     | _, _ => none
+  | ["mon_cn", "goawaycode", sid, code] =>
+    match sid.toNat?, code.toNat? with
+    | some i, some c => some (w, showViols (goawayCode w i c))
+    | _, _ => none
   | ["mon_cn", "ended", te] => some (w, showViols (endedByItself w (te == "1")))
   | ["mon_cn", "quiescent"] => some (w, showViols (quiescent w))
   | ["mon_cn", "quiescent", rw, sw] =>
